@@ -813,6 +813,8 @@ func (g *gen) randomBatch(i int) Case {
 		left -= n
 		v6 := r.Intn(2) == 0
 		switch x := r.Intn(10); {
+		case x == 0 && !big && n >= 4:
+			flows = append(flows, g.runsFlow(v6, f, n))
 		case x < 5:
 			flows = append(flows, g.tcpFlow(v6, f, n, big))
 		case x < 8:
@@ -1098,6 +1100,121 @@ func badCsumCases() []Case {
 		}
 	}
 	return cs
+}
+
+// Several items of ONE TCP flow in the table, a deletion among them, retransmissions.
+// A flow is a set of runs (contiguous sequence ranges far apart from each other); every run is an item
+// of the flow's table entry.  A run that begins with a bad-checksum segment is deleted from the table
+// when the next segment lines up with it (behind: append side, in front: prepend side).  After that the
+// other runs are extended and segments are sent AGAIN (same sequence range): a retransmission has no
+// neighbour it may be merged with -- unless the table still holds a stale copy of an item.
+func tcpSeg(v6 bool, id int, seq uint32, n int, bad bool) *Pkt {
+	p := mkTCP(v6, seq, 0x10, n)
+	p.Sport, p.Dport, p.Ack = uint16(3000+id), 443, 7777
+	p.BadL4 = bad
+	return p
+}
+
+func deleteCases() []Case {
+	g := &gen{r: rand.New(rand.NewSource(13))}
+	var cs []Case
+	for _, v6 := range []bool{false, true} {
+		for _, badFirst := range []bool{true, false} {
+			for _, side := range []string{"append", "prepend"} {
+				for _, dup := range []string{"last-appended", "middle", "first", "after-delete", "bad", "two-appended"} {
+					a := tcpSeg(v6, 0, 1000, 100, true)
+					b := tcpSeg(v6, 0, 1, 100, false)
+					d := tcpSeg(v6, 0, 101, 100, false)
+					c := tcpSeg(v6, 0, 1100, 100, false) // behind A
+					if side == "prepend" {
+						c = tcpSeg(v6, 0, 900, 100, false) // in front of A
+					}
+					f := tcpSeg(v6, 0, 201, 100, false)
+					var f0 []*Pkt
+					if badFirst {
+						f0 = []*Pkt{a, b, d, c, f}
+					} else {
+						f0 = []*Pkt{b, d, a, c, f}
+					}
+					switch dup {
+					case "last-appended":
+						f0 = append(f0, tcpSeg(v6, 0, 201, 100, false))
+					case "middle":
+						f0 = append(f0, tcpSeg(v6, 0, 101, 100, false))
+					case "first":
+						f0 = append(f0, tcpSeg(v6, 0, 1, 100, false))
+					case "after-delete":
+						f0 = append(f0, tcpSeg(v6, 0, c.Seq, 100, false), tcpSeg(v6, 0, c.Seq+100, 100, false))
+					case "bad":
+						f0 = append(f0, tcpSeg(v6, 0, 1000, 100, false), tcpSeg(v6, 0, 1000, 100, true))
+					case "two-appended":
+						f0 = append(f0, tcpSeg(v6, 0, 301, 100, false), tcpSeg(v6, 0, 201, 100, false), tcpSeg(v6, 0, 301, 100, false), tcpSeg(v6, 0, 401, 100, false))
+					}
+					name := fmt.Sprintf("delete/tcp%s/bad-item-%s/%s/again-%s", map[bool]string{false: "4", true: "6"}[v6],
+						map[bool]string{true: "first", false: "after-group"}[badFirst], side, dup)
+					cs = append(cs, g.assemble(name, [][]*Pkt{f0}, 16, true, 0))
+				}
+			}
+		}
+	}
+	return cs
+}
+
+// runsFlow: the random form: 2..4 runs of 1..4 segments, some beginning with a bad checksum, emitted
+// interleaved (in order within a run, sometimes a run backwards = prepends), then 1..4 retransmissions
+// of earlier segments and continuations of the runs mixed in.
+func (g *gen) runsFlow(v6 bool, id int, n int) []*Pkt {
+	r := g.r
+	size := g.pick(50, 100, 100, 300)
+	nr := 2 + r.Intn(3)
+	type run struct {
+		lo, next uint32
+	}
+	runs := make([]*run, nr)
+	for i := range runs {
+		base := uint32(1 + 10000*i)
+		if r.Intn(6) == 0 {
+			base = 0xffffff00 - uint32(100*i)
+		}
+		runs[i] = &run{lo: base, next: base}
+	}
+	var out, sent []*Pkt
+	emit := func(k int, bad bool) {
+		p := tcpSeg(v6, id, runs[k].next, size, bad)
+		p.Payload = g.payload(size)
+		runs[k].next += uint32(size)
+		out = append(out, p)
+		sent = append(sent, p)
+	}
+	// first segment of each run; about half of the runs begin with a bad checksum
+	for _, k := range r.Perm(nr) {
+		emit(k, r.Intn(2) == 0)
+	}
+	for len(out) < n {
+		switch x := r.Intn(10); {
+		case x < 6: // continue a run
+			emit(r.Intn(nr), r.Intn(12) == 0)
+		case x < 9: // send an earlier segment again (same range; now and then with new content or a repaired checksum)
+			o := sent[r.Intn(len(sent))]
+			if r.Intn(2) == 0 {
+				o = sent[len(sent)-1-r.Intn(min(3, len(sent)))]
+			}
+			q := *o
+			q.BadL4 = o.BadL4 && r.Intn(2) == 0
+			if r.Intn(4) == 0 {
+				q.Payload = g.payload(len(o.Payload))
+			}
+			out = append(out, &q)
+		default: // a segment in front of a run (prepend side)
+			k := r.Intn(nr)
+			runs[k].lo -= uint32(size)
+			p := tcpSeg(v6, id, runs[k].lo, size, false)
+			p.Payload = g.payload(size)
+			out = append(out, p)
+			sent = append(sent, p)
+		}
+	}
+	return out
 }
 
 func fixedCases() []Case {
@@ -1386,6 +1503,7 @@ func main() {
 		cases = append(cases, fixedCases()...)
 		cases = append(cases, twinCases()...)
 		cases = append(cases, badCsumCases()...)
+		cases = append(cases, deleteCases()...)
 		cases = append(cases, fixedWriteSeq()...)
 		g := &gen{r: rand.New(rand.NewSource(*seed))}
 		for i := 0; i < *n; i++ {
